@@ -269,8 +269,10 @@ class CFG:
                         # after an exceptional finally the exception continues
                         lab = 'e' if kind == 'exc' else 'n'
                         tgt = outer()
-                        for a, _ in outs:
-                            self._edge(a, tgt, lab)
+                        if outs:
+                            j = self._new('join', s, fctx.fin, note='end-finally')
+                            self._connect(outs, j.id)
+                            self._edge(j.id, tgt, lab)
                     return cache[kind]
 
                 return get
@@ -441,7 +443,7 @@ class CFG:
                     changed = True
         return pdom
 
-    def forward(self, init, transfer, join, edge_ok=None, exc_transfer=None):
+    def forward(self, init, transfer, join, edge_ok=None, exc_transfer=None, branch_transfer=None):
         """Generic forward dataflow.  `transfer(node, state) -> state` gives the
         state on normal out-edges; exceptional out-edges carry
         `exc_transfer(node, state)` (default: the in-state, i.e. the statement's
@@ -461,6 +463,8 @@ class CFG:
                 val = out_e if lab == 'e' and self.nodes[n].kind not in ('dispatch', 'finally', 'join') else out_n
                 if lab == 'e' and self.nodes[n].kind == 'stmt' and isinstance(self.nodes[n].stmt, ast.Raise):
                     val = st
+                if branch_transfer is not None and lab in ('t', 'f'):
+                    val = branch_transfer(self.nodes[n], lab, val)
                 if b not in ins:
                     ins[b] = val
                     work.append(b)
